@@ -1,7 +1,19 @@
+#!/usr/bin/env python3
+"""Prompt for a sub-agent that produces behaviour-preserving refactorings (false-alarm side of the campaign, DESIGN.md §7b).
+usage: tools/refactor_prompt.py <Cnn> "<focus>" [--deep]      (the agent sees /tmp/prop-<Cnn>.txt and the worktree /tmp/wt-<Cnn> only)"""
 import sys
 pid, focus = sys.argv[1], sys.argv[2]
+deep = "--deep" in sys.argv
+kinds = ("renaming locals; extracting a small private helper function or closure; replacing an index loop by an iterator chain or vice versa; reordering independent statements; "
+         "compound assignment vs explicit assignment; hoisting or inlining a constant; `a * a` vs `a.powi(2)`; restructuring an if / else-if chain or using early returns / `match`; "
+         "replacing `x.is_sign_positive()` style tests by an equivalent formulation ONLY if it is equivalent for every input including +0.0 / -0.0; introducing a temporary for a repeated sub-expression")
+if deep:
+    kinds = ("Go beyond renaming, and combine several kinds in one refactoring: restructure loops (`while` vs `loop` + break vs `for` with early return, up-counter vs down-counter), restructure conditionals "
+             "(if/else chains vs `match` vs early `continue`/`return`, `let ... else`, `matches!`, Option/Result combinators vs explicit matches), extract private helper functions, methods or closures "
+             "(also helpers shared by several call sites), replace index loops by iterator chains (`zip`, `enumerate`, `windows`, `fold`, `for_each`) or vice versa, rename locals AND restructure in the same "
+             "change, tuple/destructuring assignment, `std::mem::swap/replace/take`, references to elements (`let c = &mut v[i]; *c += h`), temporaries for repeated sub-expressions, moving pure statements")
 print(f"""You are helping test a verification tool for false alarms. Work ONLY inside the git worktree /tmp/wt-{pid} (a checkout of the Rust crate `bacon-sci`). Do not read or touch anything under /verif or /repo. There is no network; use `cargo ... --offline` and set CARGO_TARGET_DIR=/tmp/wt-{pid}/target. Do NOT use `git stash`.
 
-Read the property in /tmp/prop-{pid}.txt to see which code it is about ({focus}). Your job is the OPPOSITE of breaking it: produce FOUR independent BEHAVIOUR-PRESERVING refactorings of that code, the kind of clean-up a maintainer might do in a pull request, for example: renaming locals; extracting a small private helper function or closure; replacing an index loop by an iterator chain or vice versa; reordering independent statements; compound assignment vs explicit assignment; hoisting or inlining a constant; `a * a` vs `a.powi(2)`; restructuring an if / else-if chain or using early returns / `match`; replacing `x.is_sign_positive()` style tests by an equivalent formulation ONLY if it is equivalent for every input including +0.0 / -0.0; introducing a temporary for a repeated sub-expression. Each refactoring should touch a few to a few dozen lines and must NOT change the behaviour of any public function for any input (same results bit for bit as far as floating point goes, same errors, same number and order of user-callback evaluations).
+Read the property in /tmp/prop-{pid}.txt to see which code it is about ({focus}). Your job is the OPPOSITE of breaking it: produce FOUR independent BEHAVIOUR-PRESERVING refactorings of that code, the kind of clean-up a maintainer might do in a pull request. {kinds}. Each refactoring should touch a dozen to a few dozen lines and must NOT change the behaviour of any public function for any input (same results bit for bit as far as floating point goes — do not reassociate or reorder floating-point operations —, same errors and panics, same number and order of user-callback evaluations).
 
-For each refactoring k = 1..4: start from the pristine tree (`git checkout -- .`), make the change, check `CARGO_TARGET_DIR=/tmp/wt-{pid}/target cargo test --offline --lib` (72 passed) and `cargo test --offline --doc` (23 passed), then save `git diff -- src build.rs > /tmp/wt-{pid}/refactor{{k}}.diff`. At the end leave the tree pristine (`git checkout -- .`) with the four diff files present, and write /tmp/wt-{pid}/NOTES.md explaining for each refactoring what it does and why it is behaviour-preserving. Make the four refactorings different in kind and spread over different functions relevant to the property. In your final answer list the four refactorings in one line each.""")
+For each refactoring k = 1..4: start from the pristine tree (`git checkout -- .`), make the change, check `CARGO_TARGET_DIR=/tmp/wt-{pid}/target cargo test --offline --lib` (72 passed) and `cargo test --offline --doc` (23 passed), then save `git diff -- src build.rs > /tmp/wt-{pid}/refactor{{k}}.diff`. At the end leave the tree pristine (`git checkout -- .`) with the four diff files present, and write /tmp/wt-{pid}/NOTES.md explaining for each refactoring what it does and why it is behaviour-preserving. Make the four refactorings different in kind and spread over different functions relevant to the property. If you can, confirm bit-identical behaviour against the pristine tree with a throw-away harness (delete it afterwards). In your final answer list the four refactorings in one line each.""")
